@@ -88,7 +88,7 @@ ASSUMPTIONS = [
     "EXCLUDE_D19 is True; counted as excluded:D19",
 ]
 
-EXCLUDE_D19 = True
+EXCLUDE_D19 = False
 
 T0 = 4096.0
 DT = 0.25
